@@ -298,10 +298,10 @@ CacheOn ==
    /\ Commit(C0, "other", 0, {}, <<>>, logical, [cfg EXCEPT !.nocache = FALSE])
 
 \* unix_open (+ the configuration the caller applies right after it)
-Open(wt, bounce, handler) ==
+Open(wt, bounce, handler, align0) ==       \* align0: channel->align as set by IO_FLAG_DIRECT_IO (0 otherwise)
    /\ ~open /\ open' = TRUE /\ bs' = InitBS
    /\ dev' = dev /\ slot' = NoSlots /\ lru' = <<>> /\ logical' = logical /\ unrep' = unrep
-   /\ cfg' = [nocache |-> FALSE, wt |-> wt, bounce |-> bounce, handler |-> handler, align |-> 0]
+   /\ cfg' = [nocache |-> FALSE, wt |-> wt, bounce |-> bounce, handler |-> handler, align |-> align0]
    /\ res' = [op |-> "open", ret |-> 0, rng |-> {}, data |-> <<>>, rok |-> TRUE, ev |-> <<>>, hb |-> <<>>,
               nfail |-> 0, fg |-> {}]
 
